@@ -78,3 +78,33 @@ package optimization
 //@ func app/optimization.NewController
 //@   requires c20 [safety]: logger != nil && dcs != nil
 //@   ensures C20.nonnil [C20]: result != nil && controllerOK(result)
+// ---- C20: the syncer and the controller only call into nodes that exist -------------------------------------------------
+//@ define adapterOf(c Cluster) = unbox(c, "*app/dcs.OptimizationClusterAdapter")
+//@ define known(c Cluster, h string) = has(adapterOf(c).clusterState, h)
+//@ define clusterOKc(c Cluster) = c != nil && hastype(c, "*app/dcs.OptimizationClusterAdapter") && adapterOf(c) != nil && adapterOK(adapterOf(c))
+//@ func (*app/optimization.Syncer).getClusterHostsState
+//@   requires c20 [safety]: clusterOKc(c)
+//@   loop 1 invariant hs: hostsState != nil && (forall i int :: in_range(i, hostsState.OptimizingHosts) ==> known(c, hostsState.OptimizingHosts[i])) && (forall i int :: in_range(i, hostsState.DisabledHosts) ==> known(c, hostsState.DisabledHosts[i]))
+//@   ensures C20.classified_known [C20]: result1 == nil ==> result0 != nil && (forall i int :: in_range(i, result0.OptimizingHosts) ==> known(c, result0.OptimizingHosts[i])) && (forall i int :: in_range(i, result0.DisabledHosts) ==> known(c, result0.DisabledHosts[i]))
+//@ func (*app/optimization.Syncer).getMasterReplSettings
+//@   requires c20 [safety]: clusterOKc(c) && (known(c, adapterOf(c).master) || regd(adapterOf(c).cluster, adapterOf(c).master))
+//@ func (*app/optimization.Syncer).Sync
+//@   requires c20 [safety]: clusterOKc(c) && (known(c, adapterOf(c).master) || regd(adapterOf(c).cluster, adapterOf(c).master))
+//@ func (*app/optimization.Syncer).balanceToSingleNode
+//@   requires c20 [safety]: clusterOKc(c) && (forall i int :: in_range(i, hostsState.OptimizingHosts) ==> known(c, hostsState.OptimizingHosts[i])) && (forall i int :: in_range(i, hostsState.DisabledHosts) ==> known(c, hostsState.DisabledHosts[i]))
+//@ func (*app/optimization.Syncer).startNodes
+//@   requires c20 [safety]: clusterOKc(c) && (forall i int :: in_range(i, hosts) ==> known(c, hosts[i]))
+//@ func (*app/optimization.Syncer).stopNodes
+//@   requires c20 [safety]: clusterOKc(c)
+//@ func (*app/optimization.Syncer).disableNodes
+//@   requires c20 [safety]: clusterOKc(c)
+//@ func (*app/optimization.Syncer).syncNodeOptions
+//@   requires c20 [safety]: node != nil
+//@ func (*app/optimization.Controller).DisableAll
+//@   requires c20 [safety]: forall i int :: in_range(i, nodes) ==> nodes[i] != nil
+//@ func app/optimization.makeHostToNodeMap
+//@   requires c20 [safety]: forall i int :: in_range(i, nodes) ==> nodes[i] != nil
+//@   loop 1 invariant vals: m != nil && (forall k string :: has(m, k) ==> m[k] != nil)
+//@   ensures C20.vals_nonnil [C20]: forall k string :: has(result, k) ==> result[k] != nil
+//@ func (*app/optimization.Controller).dcsHostnames
+//@   requires c20 [safety]: Dcs != nil && (forall i int :: in_range(i, fallbackNodes) ==> fallbackNodes[i] != nil)
